@@ -618,6 +618,11 @@ impl World {
         let time_limit = start.checked_add(limits.max_time);
         let mut index = 0;
 
+        // facts that are already in the world count against the budget
+        if self.facts.len() > limits.max_facts as usize {
+            return Err(Execution::RunLimit(crate::error::RunLimit::TooManyFacts));
+        }
+
         let res = loop {
             let mut new_facts = FactSet::default();
 
